@@ -45,7 +45,9 @@ fn output_size(
             // one is always a valid size), so the limit never goes below that.
             // The two differ only if the end padding is at least as large as
             // the kernel.
-            let max_size = (in_size + pad_start - one.clone()) / stride.clone() + one.clone();
+            // (`div_ceil` rather than `(x - 1) / stride + 1`, which is off by one
+            // for an empty input without start padding as `/` truncates.)
+            let max_size = (in_size + pad_start).div_ceil(&stride);
             let ceil_size = windowed_in_size.div_ceil(&stride);
             (ceil_size.clone() + one).min(&ceil_size.max(&max_size))
         }
